@@ -170,6 +170,11 @@ def contract(key, module=None, qual=None, params=None, returns=None, requires=()
     c.rely = list(rely)                        # two-state facts assumed across every yield point (G2)
     c.call_requires = dict(call_requires or {})  # callee key -> extra obligations at calls to it    # source text of a statement -> ghost statements run after it      # proved at every normal exit, not exported to callers
     c.locals = {k: T.parse_type(v) for k, v in (locals or {}).items()}
+    prev = CONTRACTS.get(key)
+    if prev is not None and getattr(prev, 'origin', None) not in (None, CURRENT_FILE[0]):
+        # a later contract file replaces a contract of an earlier one: deliberate for assumed views, a trap otherwise
+        OVERRIDES.append((key, prev.origin, CURRENT_FILE[0], prev.kind, kind))
+    c.origin = CURRENT_FILE[0]
     CONTRACTS[key] = c
     for p in props:
         PROPERTY_FUNCS.setdefault(p, [])
@@ -249,6 +254,8 @@ def bounded(props, script, what):
 
 
 MONITORS = {}      # class -> dict(inv=[...], shared=[...])
+CURRENT_FILE = [None]   # contract file being loaded
+OVERRIDES = []          # (key, earlier file, later file, earlier kind, later kind)
 
 
 def monitor(cls, inv=(), shared=()):
